@@ -7,7 +7,7 @@
   the correspondence check (`map_read`, both views, after every step).
 -/
 import XotModel.Lemmas.ForestBasic
-import XotModel.Lemmas.FmapEntry
+import XotModel.Lemmas.FmapNode
 
 namespace XotModel.Props
 open XotModel
@@ -195,6 +195,28 @@ theorem C11_children_untouched_node (f : Forest) (hi : f.Inv) (k : Forest.MapKin
     | some n => exact Or.inl (h1 n hn).2.2.2
   · rw [hnext] at hst
     exact hst
+
+/-- Node-style removal.  `remove(node)` of an entry node of view `k` of `e` IS `remove(key)` on
+    the view, for the key under which `get_node` returns that node (so `C11_refine_remove`
+    applies); `detach(node)` has the same effect on the view (`omRemove`), leaves the other view
+    alone, and the node becomes a parentless tree keeping its value. -/
+theorem C11_refine_remove_node (f : Forest) (hi : f.Inv) (k : Forest.MapKind) (e hd : Nat)
+    (he : f.isElement e = true) (hm : hd ∈ absNodes k f e) :
+    ∃ n, f.mapGetNode k e (Forest.entryKey n.value) = some n ∧ n.handle = hd ∧
+      f.remove hd = f.mapRemove k e (Forest.entryKey n.value) ∧
+      abs k (f.detach hd).1 e = omRemove (abs k f e) (Forest.entryKey n.value) ∧
+      (f.detach hd).2 = .ok ∧ n ∈ (f.detach hd).1.roots ∧
+      (∀ k', k' ≠ k → abs k' (f.detach hd).1 e = abs k' f e) := by
+  obtain ⟨nm, N, A, S, h⟩ := minv_of_inv f e hi he
+  obtain ⟨n, hg, hh, hrem⟩ := remove_node_eq h k hd hm
+  have hn : n ∈ Sect.sec k N A := by
+    rw [h.getNode k] at hg
+    exact List.mem_of_find?_eq_some hg
+  obtain ⟨s', st, hok, hmap, hroot⟩ := detach_node_step h k n hn
+  rw [hh] at st hok hroot
+  refine ⟨n, hg, hh, hrem, ?_, hok, hroot, fun k' hk => st.abs_other h hk⟩
+  rw [st.abs_same, hmap, h.abs_eq k]
+  rfl
 
 /-- Keys are distinct in both views of every node of a forest satisfying the invariant. -/
 theorem C11_unique_keys (f : Forest) (hi : f.Inv) (k : Forest.MapKind) (e : Nat) :
